@@ -358,6 +358,15 @@ def stream (v : View) (i : Nat) : M Bytes :=
   | .error e => .error e
   | .ok (len, p) => slice v.file p len
 
+/-- `ExtractFileLzh` up to the decoder: the stored block is loaded whole into a `std::vector` of the recorded length
+    (an attacker-sized length is an attacker-sized allocation) by a `Read` that refuses a block the file cannot supply -/
+def lzhLoad (v : View) (i : Nat) : M Unit :=
+  match v.blockHeader i with
+  | .error e => .error e
+  | .ok (len, p) =>
+    if len ≥ allocCap then .error (.err .alloc)
+    else (slice v.file p len).map (fun _ => ())
+
 /-- what `ExtractFile(i, path)` does: `some bytes` written to `path`, or `none` for an LZH member whose stored extent is
     accepted (what the decoder makes of it: C04) -/
 def extract (v : View) (i : Nat) : M (Option Bytes) :=
@@ -365,7 +374,7 @@ def extract (v : View) (i : Nat) : M (Option Bytes) :=
   | .error e => .error e
   | .ok e =>
     if e.comp = uncompressed then (v.stream i).map some
-    else if e.comp = lzh then (v.stream i).map (fun _ => none)
+    else if e.comp = lzh then (v.lzhLoad i).map (fun _ => none)
     else .error (.err .format)
 
 end View
